@@ -308,7 +308,7 @@ def run(ctx):
                         ok = any(isinstance(s, ast.Raise) for s in h.body)
             else:
                 ok = True   # uncaught: propagates
-            ctx.check(ok and (norm(x.args[0]) in ('args.f', 'args.b') or g_ is not f_pa), 'C19.4', 'matcher-error:%s' % norm(x.args[0]), g_.loc(x), 'a malformed %s matcher propagates as RuntimeError' % norm(x.args[0]),
+            ctx.check(ok, 'C19.4', 'matcher-error:%s' % norm(x.args[0]), g_.loc(x), 'a malformed %s matcher propagates as RuntimeError' % norm(x.args[0]),
                       'a malformed matcher given as %s is swallowed' % norm(x.args[0]))
     ctx.floor('C19.4', nm_, 1, 'matcher.parse calls in parse_args')
     nret = 0
@@ -423,5 +423,11 @@ def run(ctx):
         ok = 'print_help()' in body and 'exit(' in body
     ctx.check(ok, 'C19.5', 'parse_args:no-mode-prints-usage-and-stops', f_pa.loc(nonec[0] if nonec else None), 'without exactly one mode, usage is printed and the program terminates before anything runs',
               'the no-mode case does not print usage and terminate')
+    # run mode: the forwarded half is the program's argv, as it stands - how the child is started is C13.3 (argv verbatim, only stderr / env /
+    # bufsize set); its findings about the child's command line are findings here
+    from . import common as _cm19, c13 as _c13
+    _cm19.lift(ctx, 'C19.3', 'program-started-with-the-forwarded-words', _c13, 'C13', ('C13.3',), 'the words after -r must reach the program unmodified',
+               key_filter=lambda k: k.startswith('child:') or 'child:' in k, floor=1)
+
     return ('path enumeration of _split_command (return shapes) and _select_mode, identity chains of the two halves into argparse / Arguments / subprocess / GDB, '
             'quoting-function check of the GDB re-quoting. Decided: %s. Undecided: %s' % ('; '.join(ctx.decided), '; '.join(ctx.undecided)))
